@@ -30,7 +30,8 @@ EXPLANATION = (
     'model being rebuilt into the SQL returned by the SQLite table rebuild, '
     'and MockMeta takes each facet from the model signature; R-C01.6 every '
     'columns= handed to the scanned database state is built from Field.column '
-    '(real column names), never from field names / attnames.')
+    '(real column names), never from field names / attnames; '
+    'R-C01.7 the optimiser tests whether a mutation was marked as removed through a hash-based container (BaseMutation.__eq__ is structural, __hash__ is identity): a list would drop a kept mutation that merely equals a removed one.')
 NOT_DECIDED = (
     'That the generated SQL executes and yields the same schema as creating '
     'the models from scratch, for any schema/sequence (needs SQLite and '
@@ -717,7 +718,13 @@ def r6_column_kind(ctx):
     ctx.floor('database-state index calls with columns=', n, 8)
 
 
+def r7_optimiser_identity(ctx):
+    from .c03 import r7_identity_membership
+    r7_identity_membership(ctx, rule_id='R-C01.7')
+
+
 def run(ctx):
+    r7_optimiser_identity(ctx)
     r6_column_kind(ctx)
     r1_op_type_protocol(ctx)
     r2_reflective_dispatch(ctx)
